@@ -72,13 +72,14 @@ PROPS['C13'] = dict(
                 'lists of 4 triangles) and on random lists of up to 400 triangles biased to multiply-shared edges, bow-ties, repeats, mirrored and degenerate faces; '
                 'an independent ~120-line checker then walks the table: opposite is a symmetric pairing over a shared oppositely oriented edge (input ids and split ids), '
                 'every fan walk from the representative corner terminates and visits exactly the corners mapped to the vertex, vertex parents reproduce the input ids, '
-                'degenerate faces are unlinked, counters agree with a recount.'),
+                'degenerate faces are unlinked, counters agree with a recount. A third of the random cases build the table from generated meshes (CreateCornerTableFromPositionAttribute / FromAllAttributes) and check '
+                'MeshAttributeCornerTable on top: seams symmetric and exactly where attribute values differ across an edge, opposite suppressed across seams, one attribute value per attribute vertex, fan walks terminate.'),
     level_note='Exhaustive only for the stated small domain (evidence key exhaustive); larger lists are sampled. Step-bounded fan walks replace a hang oracle.',
     rule=('cases 0..15624: prefix (t1,t2) of triangles over ids 0..4: lists [t1] (if t2=0), [t1,t2], [t1,t2,t3] for all t3; thorough: cases 15625..31249: all [t1,t2,t3,t4]; '
           'remaining cases: one random list. Non-trivial = Create returned a table that was walked completely; distinct = hash of prefix / of the face list.'),
     runs=[dict(variant='asan', harness='c13_corner_table', cases=dict(quick=15625 + 30000, thorough=2 * 15625 + 400000))],
     min_nontrivial=15625,
-    require_counters={'exhaustive_lists_le3': 1968875, 'random_lists': 1000},
+    require_counters={'exhaustive_lists_le3': 1968875, 'random_lists': 1000, 'mesh_tables/position': 3000, 'mesh_tables/all-attributes': 3000, 'attribute_tables/with-seams': 1000, 'attribute_tables/without-seams': 500},
     exhaustive_counter='exhaustive_lists_le3',
     exhaustive_expected=dict(quick=1968875, thorough=1968875),
     exhaustive_scope='all lists of <= 3 triangles over vertex ids 0..4 (thorough: also all lists of 4 triangles, counter exhaustive_lists_eq4); the random lists are a sample on top',
